@@ -3,9 +3,9 @@ EXTENDS ConfigFile, Json
 RECURSIVE Str(_)
 Str(s) == IF s = <<>> THEN "" ELSE Head(s) \o Str(Tail(s))
 RootLevelsDef == {1, 4}
-AppListsDef == { <<>>, <<"c">>, <<"c", "x">>, <<"ghost", "c">> }
+AppListsDef == { <<>>, <<"c">>, <<"c", "x">>, <<"ghost", "c">>, <<"ghost", "ghost2", "c", "x">> }
 LoggerOptionsDef == { [lvl |-> 5, add |-> "none", apps |-> <<"c">>], [lvl |-> 2, add |-> "false", apps |-> <<"x", "c">>],
-                      [lvl |-> 0, add |-> "true", apps |-> <<"ghost">>], [lvl |-> 3, add |-> "none", apps |-> <<>>] }
+                      [lvl |-> 0, add |-> "true", apps |-> <<"ghost", "ghost2", "c">>], [lvl |-> 3, add |-> "none", apps |-> <<>>] }
 ProbeTargets == { <<"a">>, <<"a", ":", ":", "b">>, <<"a", ":", ":", "b", ":", ":", "c">>, <<"z">>, <<"a", "b">> }
 RECURSIVE SetToSeq(_)
 SetToSeq(S) == IF S = {} THEN <<>> ELSE LET x == CHOOSE y \in S : TRUE IN <<x>> \o SetToSeq(S \ {x})
